@@ -488,7 +488,7 @@ void Session::dump_tx(htp_tx_t *tx, TxDump &d) {
     s += "RES2 "; app_i(s, "tc", tx->response_transfer_coding); app_i(s, "ce", tx->response_content_encoding); app_i(s, "cep", tx->response_content_encoding_processing); app_b(s, "ct", tx->response_content_type);
     app_i(s, "cl", tx->response_content_length); app_i(s, "msglen", tx->response_message_len); app_i(s, "entlen", tx->response_entity_len); s += '\n';
     if (tx->response_headers) for (size_t i = 0, n = htp_table_size(tx->response_headers); i < n; i++) { htp_header_t *h = (htp_header_t *)htp_table_get_index(tx->response_headers, i, NULL); if (!h) continue; s += " reshdr "; app_b(s, "n", h->name); app_b(s, "v", h->value); app_i(s, "f", (long long)h->flags); s += '\n'; }
-    s += "TX "; app_i(s, "flags", (long long)tx->flags); app_i(s, "reqprog", tx->request_progress); app_i(s, "resprog", tx->response_progress); s += '\n';
+    s += "TX "; app_i(s, "flags", (long long)(tx->flags & ~o_.flag_mask)); app_i(s, "reqprog", tx->request_progress); app_i(s, "resprog", tx->response_progress); s += '\n';
     d.text = s; d.flags = tx->flags;
     d.req_entity = tx->request_entity_len; d.req_message = tx->request_message_len; d.res_entity = tx->response_entity_len; d.res_message = tx->response_message_len;
 }
@@ -531,6 +531,31 @@ std::string Result::dump_all() const {
     for (auto &t : txs) { s += "== tx " + std::to_string(t.serial) + (t.complete ? " complete" : " incomplete") + "\n" + t.text; s += "BODY req=\"" + vc::esc(t.req_body, 400) + "\" res=\"" + vc::esc(t.res_body, 400) + "\"\n"; }
     s += "conn flags=" + std::to_string(conn_flags) + "\n";
     return s;
+}
+std::string Result::projection(int tx, int dir) const {
+    // data callbacks of each kind are concatenated between two non-data callbacks (several data hooks may fire per
+    // delivered piece, e.g. body data and file data); end-of-data markers are kept once
+    std::string out; std::vector<std::pair<int, std::string>> acc; std::vector<int> markers;
+    auto flush = [&]() {
+        for (auto &a : acc) if (!a.second.empty()) out += std::string(hook_name(a.first)) + "[" + vc::hex(a.second) + "]|";
+        for (int m : markers) out += std::string(hook_name(m)) + "(end)|";
+        acc.clear(); markers.clear();
+    };
+    for (auto &e : events) {
+        if (e.tx != tx || e.hook == H_LOG) continue;
+        int d = is_req_hook(e.hook) ? 0 : is_res_hook(e.hook) ? 1 : 2;
+        if (d != dir) continue;
+        if (is_data_hook(e.hook)) {
+            bool marker = e.null_data && e.len == 0;
+            if (marker) { if (std::find(markers.begin(), markers.end(), e.hook) == markers.end()) markers.push_back(e.hook); continue; }
+            if (!markers.empty()) flush(); // data after a marker starts a new group
+            std::string piece = e.null_data ? std::string("<gap:") + std::to_string(e.len) + ">" : e.data;
+            bool found = false; for (auto &a : acc) if (a.first == e.hook) { a.second += piece; found = true; }
+            if (!found) acc.push_back({e.hook, piece});
+        } else { flush(); out += std::string(hook_name(e.hook)) + "|"; }
+    }
+    flush();
+    return out;
 }
 bool Result::has_violation(const std::string &prefix) const { for (auto &v : violations) if (v.rfind(prefix, 0) == 0) return true; return false; }
 
